@@ -1,6 +1,763 @@
-//! Killable worker processes (filled in with the stdlib call engine).
+//! Killable worker processes.
+//!
+//! The same binary started as `vcheck --worker` reads line-delimited JSON requests on stdin,
+//! executes one stdlib call case per request (compile + render diagnostics + type info + run,
+//! each under `catch_unwind` with the panic location recorded) and answers one JSON line.
+//! The parent side keeps one lazily spawned worker per thread (`exec`), enforces the per-case
+//! deadline by killing the worker, and respawns a worker that died (stack overflow, abort,
+//! allocation failure under `RLIMIT_AS` kill the worker, not the harness).
+
+use std::cell::RefCell;
+use std::io::{BufRead, Read, Write};
+use std::os::fd::AsRawFd;
+use std::os::unix::process::ExitStatusExt;
+use std::panic::{catch_unwind, AssertUnwindSafe};
+use std::process::{Child, ChildStderr, ChildStdin, ChildStdout, Command, Stdio};
+use std::time::{Duration, Instant};
+
+use serde::{Deserialize, Serialize};
+use vrl::diagnostic::{DiagnosticList, Formatter};
+use vrl::value::kind::Collection;
+use vrl::value::Kind;
+
+use crate::engine::panics;
+use crate::gens::call::{bit_name, bit_of_value, value_bytes, CallCase, Form};
+use crate::gens::value::TV;
+use crate::model::member;
+use crate::vrlx::{self, End};
+
+pub const WORKER_AS_LIMIT: u64 = 8 << 30;
+pub const WORKER_STACK: usize = 16 << 20;
+/// values larger than this are not shipped back (only their size and the oracle facts are)
+pub const MAX_SHIPPED_VALUE: u64 = 256 << 10;
+const MARK: &str = "@@R ";
+
+// ------------------------------------------------------------------------------------------
+// protocol
+
+#[derive(Serialize, Deserialize, Debug, Clone)]
+pub enum Request {
+    Ping,
+    Call(CallCase),
+}
+
+#[derive(Serialize, Deserialize, Debug, Clone)]
+pub enum Response {
+    Pong,
+    Call(Box<ExecOut>),
+    BadRequest(String),
+}
+
+#[derive(Serialize, Deserialize, Debug, Clone, Copy, PartialEq, Eq)]
+pub enum Stage {
+    /// the compiler rejected the call (diagnostics in `codes` / `diag`)
+    Rejected,
+    /// compiled and ran to an end (`end`)
+    Ran,
+    /// code under test panicked (`panic`)
+    Panicked,
+}
+
+#[derive(Serialize, Deserialize, Debug, Clone, Copy, PartialEq, Eq)]
+pub enum EndClass {
+    None,
+    Ok,
+    Return,
+    Error,
+    Abort,
+    Other,
+}
+
+#[derive(Serialize, Deserialize, Debug, Clone)]
+pub struct PanicInfo {
+    /// compile | render | type_info | run
+    pub phase: String,
+    /// `<file>:<line>` relative to the repository / registry crate
+    pub loc: String,
+    pub msg: String,
+}
+
+#[derive(Serialize, Deserialize, Debug, Clone)]
+pub struct ExecOut {
+    pub src: String,
+    /// the call was written `f!(..)`
+    pub bang: bool,
+    pub stage: Stage,
+    pub codes: Vec<usize>,
+    pub diag: String,
+    pub warnings: usize,
+    pub end: EndClass,
+    /// result value when the run ended Ok/Return and it is small enough to ship
+    pub value: Option<TV>,
+    pub value_kind: String,
+    pub value_bytes: u64,
+    pub error: String,
+    // --- declared type, read from the compiled program
+    pub declared: String,
+    pub declared_debug: String,
+    pub declared_never: bool,
+    pub declared_fallible: bool,
+    // --- oracle facts that need the `Kind` (computed in the worker)
+    pub member: bool,
+    pub why_not: String,
+    /// class of the first non-membership: never | shape | kind
+    pub mismatch: String,
+    /// finer: never | missing_field | missing_index | extra_field | extra_index | kind
+    pub mismatch_detail: String,
+    pub return_mask: u16,
+    pub return_bit_ok: bool,
+    pub compile_us: u64,
+    pub run_us: u64,
+    pub panic: Option<PanicInfo>,
+}
+
+impl ExecOut {
+    fn new(src: String, bang: bool) -> ExecOut {
+        ExecOut {
+            src,
+            bang,
+            stage: Stage::Rejected,
+            codes: Vec::new(),
+            diag: String::new(),
+            warnings: 0,
+            end: EndClass::None,
+            value: None,
+            value_kind: String::new(),
+            value_bytes: 0,
+            error: String::new(),
+            declared: String::new(),
+            declared_debug: String::new(),
+            declared_never: false,
+            declared_fallible: false,
+            member: false,
+            why_not: String::new(),
+            mismatch: String::new(),
+            mismatch_detail: String::new(),
+            return_mask: 0,
+            return_bit_ok: false,
+            compile_us: 0,
+            run_us: 0,
+            panic: None,
+        }
+    }
+    pub fn reached_body(&self) -> bool {
+        self.stage == Stage::Ran && matches!(self.end, EndClass::Ok | EndClass::Error | EndClass::Return)
+    }
+}
+
+fn clip(s: &str, max: usize) -> String {
+    if s.len() <= max {
+        return s.to_string();
+    }
+    let mut n = max;
+    while !s.is_char_boundary(n) {
+        n -= 1;
+    }
+    format!("{}…", &s[..n])
+}
+
+// ------------------------------------------------------------------------------------------
+// worker side
+
+fn guarded<T>(phase: &str, f: impl FnOnce() -> T) -> Result<T, PanicInfo> {
+    panics::clear_last();
+    match catch_unwind(AssertUnwindSafe(f)) {
+        Ok(v) => Ok(v),
+        Err(payload) => {
+            let (loc, msg) = panics::last().unwrap_or_else(|| ("unknown".to_string(), panics::payload_str(&payload)));
+            Err(PanicInfo { phase: phase.to_string(), loc, msg: clip(&msg, 300) })
+        }
+    }
+}
+
+fn render_all(src: &str, d: &DiagnosticList) -> usize {
+    let plain = Formatter::new(src, d.clone()).to_string();
+    let colored = Formatter::new(src, d.clone()).colored().to_string();
+    plain.len() + colored.len()
+}
+
+/// Execute one call case in this process. Every entry into code under test is guarded.
+pub fn exec_call(case: &CallCase) -> ExecOut {
+    let meta_kind = Kind::object(Collection::any());
+    let mut bang = case.form == Form::Bang;
+    let mut built = case.build(bang);
+    let mut out = ExecOut::new(built.src.clone(), bang);
+    let t0 = Instant::now();
+    let program = loop {
+        let res = guarded("compile", || vrlx::compile_ext(&built.src, built.event_kind.clone(), meta_kind.clone()));
+        let res = match res {
+            Ok(r) => r,
+            Err(p) => {
+                out.stage = Stage::Panicked;
+                out.panic = Some(p);
+                out.compile_us = t0.elapsed().as_micros() as u64;
+                return out;
+            }
+        };
+        match res {
+            Ok(ok) => {
+                out.warnings = ok.warnings.len();
+                if !ok.warnings.is_empty() {
+                    if let Err(p) = guarded("render", || render_all(&built.src, &ok.warnings)) {
+                        out.stage = Stage::Panicked;
+                        out.panic = Some(p);
+                        return out;
+                    }
+                }
+                break ok.program;
+            }
+            Err(diags) => {
+                if let Err(p) = guarded("render", || render_all(&built.src, &diags)) {
+                    out.stage = Stage::Panicked;
+                    out.panic = Some(p);
+                    return out;
+                }
+                let codes = vrlx::diag_codes(&diags);
+                let only_fallible = !codes.is_empty() && codes.iter().all(|c| *c == 100 || *c == 103 || *c == 110);
+                if case.form == Form::Auto && !bang && only_fallible {
+                    bang = true;
+                    built = case.build(true);
+                    out.src = built.src.clone();
+                    out.bang = true;
+                    continue;
+                }
+                out.stage = Stage::Rejected;
+                out.codes = codes;
+                out.diag = clip(&vrlx::diag_summary(&diags), 400);
+                out.compile_us = t0.elapsed().as_micros() as u64;
+                return out;
+            }
+        }
+    };
+    out.compile_us = t0.elapsed().as_micros() as u64;
+
+    let info = match guarded("type_info", || program.final_type_info()) {
+        Ok(i) => i,
+        Err(p) => {
+            out.stage = Stage::Panicked;
+            out.panic = Some(p);
+            return out;
+        }
+    };
+    let declared = info.result.kind().clone();
+    out.declared = clip(&declared.to_string(), 300);
+    out.declared_debug = clip(&format!("{declared:?}"), 600);
+    out.declared_never = declared.is_never();
+    out.declared_fallible = info.result.is_fallible();
+    out.return_mask = vrlx::fns().iter().find(|f| f.identifier() == case.func).map(|f| f.return_kind()).unwrap_or(0);
+
+    let t1 = Instant::now();
+    let ran = guarded("run", || vrlx::run(&program, built.event.clone(), vrlx::empty_object()));
+    out.run_us = t1.elapsed().as_micros() as u64;
+    let ran = match ran {
+        Ok(r) => r,
+        Err(p) => {
+            out.stage = Stage::Panicked;
+            out.panic = Some(p);
+            return out;
+        }
+    };
+    out.stage = Stage::Ran;
+    match &ran.end {
+        End::Ok(v) | End::Return(v) => {
+            out.end = if matches!(ran.end, End::Ok(_)) { EndClass::Ok } else { EndClass::Return };
+            out.value_bytes = value_bytes(v);
+            let bit = bit_of_value(v);
+            out.value_kind = bit_name(bit).to_string();
+            out.return_bit_ok = out.return_mask & bit != 0;
+            out.member = member::member(v, &declared);
+            if !out.member {
+                out.why_not = clip(&member::why_not(v, &declared), 500);
+                // signatures use the coarse class: kind (a value of a kind the type does not admit),
+                // shape (a field/index the type requires is absent, or one it excludes is present),
+                // never (the declared type has no members at all)
+                out.mismatch = match mismatch_class(v, &declared) {
+                    "missing_field" | "missing_index" | "extra_field" | "extra_index" => "shape",
+                    other => other,
+                }
+                .to_string();
+                out.mismatch_detail = mismatch_class(v, &declared).to_string();
+            }
+            if out.value_bytes <= MAX_SHIPPED_VALUE {
+                out.value = Some(TV::from_value(v));
+            }
+        }
+        End::Error(m) => {
+            out.end = EndClass::Error;
+            out.error = clip(m, 300);
+        }
+        End::Abort(m) => {
+            out.end = EndClass::Abort;
+            out.error = clip(m.as_deref().unwrap_or(""), 300);
+        }
+        End::Other(m) => {
+            out.end = EndClass::Other;
+            out.error = clip(m, 300);
+        }
+    }
+    out
+}
+
+/// Class of the first location (same traversal order as `member::why_not`) where `v` leaves `k`.
+pub fn mismatch_class(v: &vrl::value::Value, k: &Kind) -> &'static str {
+    use vrl::value::kind::{Field, Index};
+    use vrl::value::Value;
+    fn only_undefined(k: &Kind) -> bool {
+        k.is_never() || k.is_undefined()
+    }
+    fn go(v: &Value, k: &Kind) -> Option<&'static str> {
+        if k.is_never() {
+            return Some("never");
+        }
+        match v {
+            Value::Object(map) => {
+                let Some(c) = k.as_object() else { return Some("kind") };
+                for (key, val) in map {
+                    let fk = c.known().get(&Field::from(key.as_str())).cloned().unwrap_or_else(|| c.unknown_kind());
+                    if only_undefined(&fk) {
+                        return Some("extra_field");
+                    }
+                    if let Some(w) = go(val, &fk) {
+                        return Some(w);
+                    }
+                }
+                for (key, kk) in c.known() {
+                    if !map.contains_key(key.as_str()) && !member::admits_undefined(kk) {
+                        return Some("missing_field");
+                    }
+                }
+                None
+            }
+            Value::Array(items) => {
+                let Some(c) = k.as_array() else { return Some("kind") };
+                for (i, val) in items.iter().enumerate() {
+                    let ik = c.known().get(&Index::from(i)).cloned().unwrap_or_else(|| c.unknown_kind());
+                    if only_undefined(&ik) {
+                        return Some("extra_index");
+                    }
+                    if let Some(w) = go(val, &ik) {
+                        return Some(w);
+                    }
+                }
+                for (i, kk) in c.known() {
+                    if i.to_usize() >= items.len() && !member::admits_undefined(kk) {
+                        return Some("missing_index");
+                    }
+                }
+                None
+            }
+            other => {
+                if member::member(other, k) {
+                    None
+                } else {
+                    Some("kind")
+                }
+            }
+        }
+    }
+    go(v, k).unwrap_or("member")
+}
+
+fn set_memory_limit() {
+    let lim = libc::rlimit { rlim_cur: WORKER_AS_LIMIT, rlim_max: WORKER_AS_LIMIT };
+    // SAFETY: plain syscall with a valid pointer to a local struct
+    unsafe {
+        libc::setrlimit(libc::RLIMIT_AS, &lim);
+    }
+}
+
+fn handle(req: Request) -> Response {
+    match req {
+        Request::Ping => Response::Pong,
+        Request::Call(case) => Response::Call(Box::new(exec_call(&case))),
+    }
+}
 
 pub fn worker_main() {
-    eprintln!("worker mode not built yet");
-    std::process::exit(2);
+    let args: Vec<String> = std::env::args().skip(2).collect();
+    if args.first().map(String::as_str) == Some("dump") {
+        panics::install_quiet_hook();
+        dump();
+        return;
+    }
+    if args.first().map(String::as_str) == Some("case") {
+        // triage aid: execute one case given as JSON (or @file) in this process and print the answer
+        panics::install_quiet_hook();
+        let text = args.get(1).cloned().unwrap_or_default();
+        let text = if let Some(f) = text.strip_prefix('@') { std::fs::read_to_string(f).unwrap_or_default() } else { text };
+        let v: serde_json::Value = serde_json::from_str(&text).expect("json");
+        let v = if v.get("case").is_some() { v["case"].clone() } else { v };
+        let case: CallCase = serde_json::from_value(v).expect("CallCase");
+        let out = exec_call(&case);
+        println!("{}", serde_json::to_string_pretty(&out).unwrap_or_default());
+        return;
+    }
+    if args.first().map(String::as_str) == Some("verdict") {
+        // triage aid: run one property's oracle on a case (JSON, @file, or a replay file) and
+        // print the verdict with its signature
+        panics::install_quiet_hook();
+        let prop = args.get(1).cloned().unwrap_or_default();
+        let text = args.get(2).cloned().unwrap_or_default();
+        let text = if let Some(f) = text.strip_prefix('@') { std::fs::read_to_string(f).unwrap_or_default() } else { text };
+        let v: serde_json::Value = serde_json::from_str(&text).expect("json");
+        let v = if v.get("case").is_some() { v["case"].clone() } else { v };
+        let case: CallCase = serde_json::from_value(v).expect("CallCase");
+        let verdict = match prop.as_str() {
+            "C03" => crate::props::c03::check(&case),
+            "C04" => crate::props::c04_calls::check(&case),
+            "C05" => crate::props::c05::check_replay(&case),
+            _ => panic!("unknown property"),
+        };
+        match verdict.outcome {
+            crate::engine::Outcome::Fail { msg, sig } => println!("FAIL\t{}\t{}", sig.unwrap_or_default(), msg),
+            other => println!("{other:?}\tnontrivial={}\tclasses={:?}", verdict.nontrivial, verdict.classes),
+        }
+        return;
+    }
+    if args.first().map(String::as_str) == Some("eval") {
+        // triage aid: compile a program against an `any` event (optional JSON event) and run it
+        panics::install_quiet_hook();
+        let src = args.get(1).cloned().unwrap_or_default();
+        let event: vrl::value::Value = args
+            .get(2)
+            .and_then(|s| serde_json::from_str::<serde_json::Value>(s).ok())
+            .map(vrl::value::Value::from)
+            .unwrap_or_else(vrlx::empty_object);
+        let r = guarded("eval", || match vrlx::compile(&src) {
+            Err(d) => println!("REJECTED: {}", vrlx::diag_summary(&d)),
+            Ok(res) => {
+                let ti = res.program.final_type_info();
+                println!("type: {} fallible={} never={}", ti.result.kind(), ti.result.is_fallible(), ti.result.kind().is_never());
+                let out = vrlx::run(&res.program, event.clone(), vrlx::empty_object());
+                println!("end: {:?}", out.end);
+                if let Some(v) = out.end.value() {
+                    println!("member: {} {}", member::member(v, ti.result.kind()), member::why_not(v, ti.result.kind()));
+                }
+            }
+        });
+        if let Err(p) = r {
+            println!("PANIC at {} : {}", p.loc, p.msg);
+        }
+        return;
+    }
+    set_memory_limit();
+    panics::install_quiet_hook();
+    // cases run on a thread with a generous, fixed stack: an overflow then means unbounded
+    // recursion, not "the default 8 MiB were a little short"
+    let th = std::thread::Builder::new()
+        .stack_size(WORKER_STACK)
+        .spawn(|| {
+            let stdin = std::io::stdin();
+            let stdout = std::io::stdout();
+            for line in stdin.lock().lines() {
+                let Ok(line) = line else { break };
+                if line.trim().is_empty() {
+                    continue;
+                }
+                let resp = match serde_json::from_str::<Request>(&line) {
+                    Ok(req) => handle(req),
+                    Err(e) => Response::BadRequest(e.to_string()),
+                };
+                let text = serde_json::to_string(&resp).unwrap_or_else(|e| {
+                    serde_json::to_string(&Response::BadRequest(format!("unserialisable response: {e}"))).unwrap_or_default()
+                });
+                let mut o = stdout.lock();
+                if o.write_all(MARK.as_bytes()).is_err() || o.write_all(text.as_bytes()).is_err() || o.write_all(b"\n").is_err() || o.flush().is_err() {
+                    break;
+                }
+            }
+        })
+        .expect("spawn worker thread");
+    let _ = th.join();
 }
+
+fn dump() {
+    if std::env::args().nth(3).as_deref() == Some("specs") {
+        for s in crate::gens::call::specs() {
+            let ps: Vec<String> = s
+                .params
+                .iter()
+                .map(|p| format!("{}{}{}[pool {}]", p.kw, if p.pinned_lit { "=LIT" } else { "" }, if p.query { "=QUERY" } else { "" }, p.pool.len()))
+                .collect();
+            println!("{} seeds={} :: {}", s.name, s.seeds.len(), ps.join(", "));
+        }
+        return;
+    }
+    for f in vrlx::fns() {
+        let ps: Vec<String> = f
+            .parameters()
+            .iter()
+            .map(|p| {
+                format!(
+                    "{}{}:{:#x}{}",
+                    p.keyword,
+                    if p.required { "" } else { "?" },
+                    p.kind,
+                    p.enum_variants.map(|v| format!("{:?}", v.iter().map(|e| e.value).collect::<Vec<_>>())).unwrap_or_default()
+                )
+            })
+            .collect();
+        println!("{} ret={:#x} closure={} ex={} :: {}", f.identifier(), f.return_kind(), f.closure().is_some(), f.examples().len(), ps.join(", "));
+    }
+}
+
+// ------------------------------------------------------------------------------------------
+// parent side
+
+#[derive(Debug, Clone, PartialEq, Eq)]
+pub enum Death {
+    StackOverflow,
+    /// allocation failure (under the worker's `RLIMIT_AS`)
+    Alloc,
+    Signal(i32),
+    Exit(i32),
+    Unknown,
+}
+
+impl Death {
+    pub fn label(&self) -> String {
+        match self {
+            Death::StackOverflow => "stack_overflow".to_string(),
+            Death::Alloc => "alloc_failure".to_string(),
+            Death::Signal(s) => format!("signal_{s}"),
+            Death::Exit(c) => format!("exit_{c}"),
+            Death::Unknown => "unknown".to_string(),
+        }
+    }
+}
+
+#[derive(Debug, Clone)]
+pub enum WorkerResult {
+    Done(Box<ExecOut>),
+    /// the deadline (wall, or CPU time when a CPU limit was given) passed; the worker was killed
+    Timeout,
+    /// the wall cap passed before the CPU limit was consumed (machine too loaded, or the worker
+    /// was blocked): inconclusive; the worker was killed
+    Starved,
+    /// the worker died while executing the case
+    Died { how: Death, stderr: String },
+    /// the harness could not run the case (spawn failure, protocol error)
+    Harness(String),
+}
+
+struct Worker {
+    child: Child,
+    stdin: Option<ChildStdin>,
+    stdout: ChildStdout,
+    stderr: Option<ChildStderr>,
+    buf: Vec<u8>,
+}
+
+enum Raw {
+    Line(String),
+    Timeout,
+    /// the wall limit passed although the worker had consumed less CPU time than the CPU limit
+    Starved,
+    Eof,
+}
+
+/// Limits of one execution. With `cpu` set, the verdict "did not return" is reached on consumed
+/// CPU time of the worker process (robust against a loaded machine); `wall` then only caps the
+/// wait and yields `Starved` (inconclusive) when it passes first.
+#[derive(Clone, Copy, Debug)]
+pub struct Limits {
+    pub wall: Duration,
+    pub cpu: Option<Duration>,
+}
+
+fn cpu_time_of(pid: u32) -> Option<Duration> {
+    let stat = std::fs::read_to_string(format!("/proc/{pid}/stat")).ok()?;
+    let rest = &stat[stat.rfind(')')? + 1..];
+    let f: Vec<&str> = rest.split_whitespace().collect();
+    // after the command name: state is field 3, utime 14, stime 15 (1-based over the whole line)
+    let utime: u64 = f.get(11)?.parse().ok()?;
+    let stime: u64 = f.get(12)?.parse().ok()?;
+    // SAFETY: plain sysconf call
+    let tck = unsafe { libc::sysconf(libc::_SC_CLK_TCK) };
+    let tck = if tck > 0 { tck as u64 } else { 100 };
+    Some(Duration::from_millis((utime + stime) * 1000 / tck))
+}
+
+impl Worker {
+    fn spawn() -> std::io::Result<Worker> {
+        let exe = std::env::current_exe()?;
+        let mut child = Command::new(exe).arg("--worker").stdin(Stdio::piped()).stdout(Stdio::piped()).stderr(Stdio::piped()).spawn()?;
+        let stdin = child.stdin.take();
+        let stdout = child.stdout.take().ok_or_else(|| std::io::Error::other("no stdout"))?;
+        let stderr = child.stderr.take();
+        Ok(Worker { child, stdin, stdout, stderr, buf: Vec::new() })
+    }
+
+    fn send(&mut self, line: &str) -> std::io::Result<()> {
+        let Some(w) = self.stdin.as_mut() else { return Err(std::io::Error::other("stdin closed")) };
+        w.write_all(line.as_bytes())?;
+        w.write_all(b"\n")?;
+        w.flush()
+    }
+
+    /// next protocol line, or timeout / EOF
+    fn recv(&mut self, limits: Limits) -> Raw {
+        let deadline = Instant::now() + limits.wall;
+        let cpu0 = limits.cpu.and_then(|_| cpu_time_of(self.child.id())).unwrap_or_default();
+        loop {
+            while let Some(nl) = self.buf.iter().position(|b| *b == b'\n') {
+                let line: Vec<u8> = self.buf.drain(..=nl).collect();
+                let text = String::from_utf8_lossy(&line[..line.len() - 1]).to_string();
+                if let Some(rest) = text.strip_prefix(MARK) {
+                    return Raw::Line(rest.to_string());
+                }
+                // anything else on stdout is noise from code under test: ignore
+            }
+            if let Some(limit) = limits.cpu {
+                if let Some(used) = cpu_time_of(self.child.id()) {
+                    if used.saturating_sub(cpu0) >= limit {
+                        return Raw::Timeout;
+                    }
+                }
+            }
+            let now = Instant::now();
+            if now >= deadline {
+                return if limits.cpu.is_some() { Raw::Starved } else { Raw::Timeout };
+            }
+            let mut ms = (deadline - now).as_millis().min(i32::MAX as u128) as i32;
+            if limits.cpu.is_some() {
+                ms = ms.min(200);
+            }
+            let mut pfd = libc::pollfd { fd: self.stdout.as_raw_fd(), events: libc::POLLIN, revents: 0 };
+            // SAFETY: one valid pollfd
+            let rc = unsafe { libc::poll(&mut pfd, 1, ms.max(1)) };
+            if rc < 0 {
+                let e = std::io::Error::last_os_error();
+                if e.kind() == std::io::ErrorKind::Interrupted {
+                    continue;
+                }
+                return Raw::Eof;
+            }
+            if rc == 0 {
+                continue; // deadline is re-checked at the top
+            }
+            let mut chunk = [0u8; 65536];
+            match self.stdout.read(&mut chunk) {
+                Ok(0) => return Raw::Eof,
+                Ok(n) => self.buf.extend_from_slice(&chunk[..n]),
+                Err(e) if e.kind() == std::io::ErrorKind::Interrupted => {}
+                Err(_) => return Raw::Eof,
+            }
+        }
+    }
+
+    /// kill (if still alive), reap and classify
+    fn finish(mut self) -> (Death, String) {
+        let _ = self.child.kill();
+        self.stdin.take();
+        let status = self.child.wait().ok();
+        let mut err = String::new();
+        if let Some(mut e) = self.stderr.take() {
+            let mut bytes = Vec::new();
+            let _ = e.read_to_end(&mut bytes);
+            err = String::from_utf8_lossy(&bytes).to_string();
+        }
+        let how = if err.contains("has overflowed its stack") {
+            Death::StackOverflow
+        } else if err.contains("memory allocation of") {
+            Death::Alloc
+        } else {
+            match status {
+                Some(s) => match (s.signal(), s.code()) {
+                    (Some(sig), _) => Death::Signal(sig),
+                    (None, Some(c)) => Death::Exit(c),
+                    _ => Death::Unknown,
+                },
+                None => Death::Unknown,
+            }
+        };
+        (how, clip(err.trim(), 400))
+    }
+}
+
+impl Drop for Worker {
+    fn drop(&mut self) {
+        self.stdin.take();
+        let _ = self.child.kill();
+        let _ = self.child.wait();
+    }
+}
+
+thread_local! {
+    static WORKER: RefCell<Option<Worker>> = const { RefCell::new(None) };
+}
+
+fn exec_on(slot: &mut Option<Worker>, case: &CallCase, limits: Limits) -> WorkerResult {
+    let line = match serde_json::to_string(&Request::Call(case.clone())) {
+        Ok(l) => l,
+        Err(e) => return WorkerResult::Harness(format!("case does not serialise: {e}")),
+    };
+    for attempt in 0..2 {
+        if slot.is_none() {
+            match Worker::spawn() {
+                Ok(w) => *slot = Some(w),
+                Err(e) => return WorkerResult::Harness(format!("cannot spawn worker: {e}")),
+            }
+        }
+        let w = slot.as_mut().expect("worker present");
+        if w.send(&line).is_err() {
+            // the worker was already dead (e.g. killed from outside): respawn once
+            if let Some(w) = slot.take() {
+                let _ = w.finish();
+            }
+            if attempt == 0 {
+                continue;
+            }
+            return WorkerResult::Harness("worker does not accept requests".to_string());
+        }
+        return match w.recv(limits) {
+            Raw::Line(text) => match serde_json::from_str::<Response>(&text) {
+                Ok(Response::Call(out)) => WorkerResult::Done(out),
+                Ok(other) => WorkerResult::Harness(format!("unexpected worker answer: {other:?}")),
+                Err(e) => WorkerResult::Harness(format!("unparsable worker answer: {e}: {}", clip(&text, 200))),
+            },
+            Raw::Timeout => {
+                if let Some(w) = slot.take() {
+                    let _ = w.finish();
+                }
+                WorkerResult::Timeout
+            }
+            Raw::Starved => {
+                if let Some(w) = slot.take() {
+                    let _ = w.finish();
+                }
+                WorkerResult::Starved
+            }
+            Raw::Eof => {
+                let (how, stderr) = slot.take().map(Worker::finish).unwrap_or((Death::Unknown, String::new()));
+                WorkerResult::Died { how, stderr }
+            }
+        };
+    }
+    WorkerResult::Harness("unreachable".to_string())
+}
+
+/// Execute a case on this thread's worker (spawned on first use, respawned after a kill/death).
+pub fn exec(case: &CallCase, deadline: Duration) -> WorkerResult {
+    WORKER.with(|w| exec_on(&mut w.borrow_mut(), case, Limits { wall: deadline, cpu: None }))
+}
+
+/// Execute a case alone in a fresh worker that is discarded afterwards.
+pub fn exec_fresh(case: &CallCase, limits: Limits) -> WorkerResult {
+    let mut slot: Option<Worker> = None;
+    let r = exec_on(&mut slot, case, limits);
+    if let Some(w) = slot.take() {
+        drop(w);
+    }
+    r
+}
+
+/// Drop this thread's worker (used by tests of the engine and at the end of a replay).
+pub fn retire() {
+    WORKER.with(|w| {
+        w.borrow_mut().take();
+    });
+}
+
+#[allow(dead_code)]
+fn _buf_read_is_used(_: &dyn BufRead) {}
